@@ -24,8 +24,8 @@ class Prop(PropBase):
 
     @staticmethod
     def cases(tier, rng):
-        # the same scripts (without child-only ops) also go through executor/driver for the model tie
-        return [Case(l, tag="script", oracle=False) for l in Prop.scripts(tier, rng) if " wr " not in l]
+        # the same scripts also go through executor/driver for the model tie (`wr` = terminal.write is an op of both)
+        return [Case(l, tag="script", oracle=False) for l in Prop.scripts(tier, rng)]
 
     @staticmethod
     def scripts(tier, rng):
@@ -39,6 +39,13 @@ class Prop(PropBase):
             data = [r.randrange(256) for _ in range(n)]
             out.append("T 0 ; wr %d %s" % (n, " ".join(map(str, data))))
         out.append("T 0 ; wr 4 0 255 0 128 ; wr 0 ; wr 3 27 91 109 ; wr 1 10")
+        # orderings of small and large writes in ONE process (buffer thresholds at 512 / 4096 / 8192 / 65536)
+        def blob(n):
+            return "wr %d %s" % (n, " ".join(str(r.randrange(256)) for _ in range(n)))
+        for big in (511, 512, 4095, 4096, 8192, 65536):
+            out.append("T 0 ; wr 5 104 101 97 100 58 ; %s ; wr 3 116 108 10" % blob(big))
+            out.append("T 0 ; %s ; wr 2 65 66 ; %s ; wr 1 0 ; %s" % (blob(big), blob(big), blob(7)))
+        out.append("T 0 ; we %s ; mv 3 4 ; %s ; er 0 ; %s ; we %s" % (e, blob(5000), blob(4096), e))
         out.append("T 0 ; " + " ; ".join("wr 1 %d" % b for b in range(256)))
         n = 40 if tier == "quick" else 400
         for _ in range(n):
@@ -54,55 +61,39 @@ class Prop(PropBase):
         build = ctx["build"]
         child = build.build_harness("stdout_child")
         scripts = Prop.scripts(tier, rng)
-        # expected: the capturing channel in the executor (real library), for scripts without child-only ops;
-        # for `wr` ops the expectation is the bytes themselves
-        plain = [s for s in scripts if " wr " not in s]
-        expected = {}
-        if ctx["exe"] and plain:
-            rc, ans, err = build.run_lines(ctx["exe"], plain)
-            for s, a in zip(plain, ans):
-                expected[s] = b"".join(unhex(seg.split(" / ")[0].strip()) for seg in a.split(" ; ")) if a != "-" else b""
-        model = {}
-        if ctx["driver"] and plain:
-            rc, ans, err = build.run_lines(ctx["driver"], plain)
-            for s, a in zip(plain, ans):
-                model[s] = b"".join(unhex(seg.split(" / ")[0].strip()) for seg in a.split(" ; ")) if a != "-" else b""
+
+        def flat(ans):
+            return b"".join(unhex(seg.split(" / ")[0].strip()) for seg in ans.split(" ; ")) if ans != "-" else b""
+        expected, model = {}, {}
+        if ctx["exe"]:
+            rc, ans, err = build.run_lines(ctx["exe"], scripts)
+            for s_, a_ in zip(scripts, ans):
+                expected[s_] = flat(a_)
+        if ctx["driver"]:
+            rc, ans, err = build.run_lines(ctx["driver"], scripts)
+            for s_, a_ in zip(scripts, ans):
+                model[s_] = flat(a_)
         failures, samples, nbytes, nontrivial = [], [], 0, set()
         env = dict(os.environ, ASAN_OPTIONS="detect_leaks=0")
-        for s in scripts:
-            body = s[1:].strip()  # drop the kind letter
+        for s_ in scripts:
+            body = s_[1:].strip()  # drop the kind letter
             p = subprocess.run([child], input=(body + "\n").encode(), stdout=subprocess.PIPE, stderr=subprocess.PIPE, env=env, timeout=120)
             got = p.stdout
-            if " wr " in s and s not in expected:
-                exp = b""
-                # expectation by construction: library ops are not mixed with wr in the fixed list except histories
-                segs = [x.strip() for x in s.split(";")[1:]]
-                pure = all(x.startswith("wr") for x in segs if x)
-                if pure:
-                    for x in segs:
-                        nums = x.split()[2:]
-                        exp += bytes(int(v) for v in nums)
-                else:
-                    # mixed: run the library part through the executor op by op is not possible with wr; compare suffix/prefix
-                    lib = " ; ".join([s.split(";")[0].strip()] + [x for x in segs if x and not x.startswith("wr")])
-                    rc, ans, err = build.run_lines(ctx["exe"], [lib])
-                    libbytes = b"".join(unhex(seg.split(" / ")[0].strip()) for seg in ans[0].split(" ; ")) if ans and ans[0] != "-" else b""
-                    tail = b""
-                    for x in segs:
-                        if x.startswith("wr"):
-                            tail += bytes(int(v) for v in x.split()[2:])
-                    exp = libbytes + tail  # histories append their wr ops at the end
-            else:
-                exp = expected.get(s, b"")
+            exp = expected.get(s_)
+            if exp is None:
+                continue
             nbytes += len(exp)
             if exp:
-                nontrivial.add(s)
-            ok = (p.returncode == 0 and got == exp and (s not in model or model[s] == exp))
+                nontrivial.add(s_)
+            ok = (p.returncode == 0 and got == exp and (s_ not in model or model[s_] == exp))
             if len(samples) < 4:
-                samples.append({"script": s[:200], "stdout_bytes": len(got), "expected_bytes": len(exp)})
+                samples.append({"script": s_[:200], "stdout_bytes": len(got), "expected_bytes": len(exp)})
             if not ok:
+                first = next((i for i, (x, y) in enumerate(zip(got, exp)) if x != y), min(len(got), len(exp)))
                 failures.append({"what": "child stdout differs from the capturing channel", "signature": "C14 stdout-differs",
-                                 "lines": [s[:2000]], "returncode": p.returncode, "stdout_hex": got[:200].hex(), "expected_hex": exp[:200].hex(),
-                                 "stdout_len": len(got), "expected_len": len(exp), "stderr": p.stderr.decode("utf-8", "replace")[-500:]})
+                                 "lines": [s_[:4000]], "returncode": p.returncode, "first_difference_at": first,
+                                 "stdout_hex": got[max(0, first - 8):first + 24].hex(), "expected_hex": exp[max(0, first - 8):first + 24].hex(),
+                                 "stdout_len": len(got), "expected_len": len(exp), "model_agrees_with_capture": model.get(s_) == exp,
+                                 "stderr": p.stderr.decode("utf-8", "replace")[-500:]})
         return {"children_run": len(scripts), "bytes_expected": nbytes, "distinct_nontrivial_scripts": len(nontrivial),
                 "samples": samples, "failures": failures}
